@@ -172,4 +172,34 @@ def Conflict (a b : Leaf) : Prop :=
 def Separated (t : List Ev) : Prop :=
   ∀ a m c e1 e2, t = a ++ Ev.op e1 :: (m ++ Ev.op e2 :: c) → Conflict e1 e2 → Ev.sync ∈ m
 
+/-! ## `snax-to-func`: the lowering of the barriers
+
+`snaxc/transforms/snax_to_func.py`: every `snax.cluster_sync_op` is replaced, in place, by one
+`func.call @snax_cluster_hw_barrier` (in the model the barrier stays the constructor `sync`: the harness maps the
+call back to it) and every `memref.dealloc` is erased; nothing else changes. -/
+
+/-- the pass on a block: `memref.dealloc` leaves disappear, every barrier stays where it is -/
+def lowerB : Blk → Blk
+  | .nil => .nil
+  | .leaf l r => if l.dealloc then lowerB r else .leaf l (lowerB r)
+  | .sync r => .sync (lowerB r)
+  | .ifO l t e r => .ifO l (lowerB t) (lowerB e) (lowerB r)
+  | .forO l b ys y r => .forO l (lowerB b) ys y (lowerB r)
+
+/-- an event of the lowered code: barriers and every operation that is not a dealloc -/
+def keptEv : Ev → Bool
+  | .sync => true
+  | .op l => !l.dealloc
+
+/-- what an execution looks like after the lowering -/
+def lowerT (t : List Ev) : List Ev := t.filter keptEv
+
+/-- `scf.if`, `scf.for` and loop terminators are not deallocs (true of any IR) -/
+def CompoundKept : Blk → Prop
+  | .nil => True
+  | .leaf _ r => CompoundKept r
+  | .sync r => CompoundKept r
+  | .ifO l t e r => l.dealloc = false ∧ CompoundKept t ∧ CompoundKept e ∧ CompoundKept r
+  | .forO l b _ y r => l.dealloc = false ∧ y.dealloc = false ∧ CompoundKept b ∧ CompoundKept r
+
 end SnaxVerif.Cores
